@@ -54,3 +54,126 @@ for _c in ITEM_CLASSES:
         self_fields=dict({'name': 'str'}, **{a: ATTR_OBJ for a in _sch}),
         params={}, returns='bytes', may_raise=['StubException'], merge_ifs=True,
         ensures=[('one-component-per-schema-attribute-in-schema-order-absent-marked', f'result == {_expected}')])
+
+# ---------------------------------------------------------------------------------------------- template component
+CONTRACTS['Attribute.get_as_bytes[template]'] = dict(
+    target='Attribute.get_as_bytes', props=['C04'],
+    self_fields={'_label': 'str'}, params={'for_template': 'const:True'}, returns='bytes',
+    raises={'ValueError': 'len(self._label) > 255', 'UnicodeEncodeError': '0 < len(self._label) and len(self._label) <= 255 and not all_ascii(self._label)'},
+    ensures=[('label-only-template-component', "result == (bytes([48]) + enc_ident(self._label) if len(self._label) > 0 else bytes([32]))")])
+
+# ---------------------------------------------------------------------------------------------- object component
+CONTRACTS['EFLRItem._make_attrs_bytes'] = dict(
+    props=[], axiom=True, params={}, returns='bytes', ensures=['result == item_attrs(self)'])
+SPEC_UFS['item_attrs'] = (('ref',), 'bytes')
+_ITEM = dict(ITEM_REF_MODEL['fields'])
+CONTRACTS['EFLRItem.make_item_body_bytes[ZoneItem]'] = dict(
+    target='EFLRItem.make_item_body_bytes', self_class='ZoneItem', props=['C04'],
+    self_fields=_ITEM, params={}, returns='bytes',
+    stubs={'_run_checks_and_set_defaults': dict(returns='none', raises=True)},
+    raises={k: v.replace('value.', 'self.') for k, v in OBN_RAISES.items()},
+    ensures=[('object-component-then-attributes',
+              "result == bytes([112]) + enc_obname(self._origin_reference, self._copy_number, self.name) + item_attrs(self)")])
+CONTRACTS['EFLRItem.make_item_body_bytes'] = dict(
+    props=[], axiom=True, params={}, returns='bytes', ensures=['result == item_body(self)'])
+
+# ---------------------------------------------------------------------------------------------- set component, template, body
+SET_FIELDS = {'set_name': 'str?', '_set_type_struct': 'bytes', '_eflr_item_list': 'seq[ref]'}
+_NAMED = 'self.set_name is not None and len(self.set_name) > 0'
+CONTRACTS['EFLRSet.__init__[ZoneSet]'] = dict(
+    target='EFLRSet.__init__', self_class='ZoneSet', props=['C04'],
+    self_fields={}, params={'set_name': 'str?'}, returns='none',
+    ensures=[('type-bytes', "self._set_type_struct == enc_ident('ZONE')"), ('name-kept', 'self.set_name == set_name'),
+             ('no-items', 'len(self._eflr_item_list) == 0')])
+CONTRACTS['EFLRSet._make_set_component_bytes'] = dict(
+    self_class='ZoneSet', props=['C04'],
+    self_fields=SET_FIELDS, params={}, returns='bytes',
+    requires=["self._set_type_struct == enc_ident('ZONE')"],
+    raises={'ValueError': f'{_NAMED} and len(self.set_name) > 255',
+            'UnicodeEncodeError': f'{_NAMED} and len(self.set_name) <= 255 and not all_ascii(self.set_name)'},
+    ensures=[('set-component', f"result == ((bytes([248]) + enc_ident('ZONE') + enc_ident(self.set_name)) if ({_NAMED}) else (bytes([240]) + enc_ident('ZONE')))")])
+CONTRACTS['EFLRSet._make_template_bytes'] = dict(
+    props=[], axiom=True, params={}, returns='bytes', ensures=['result == template_bytes(self)'])
+CONTRACTS['EFLRSet._make_body_bytes[ZoneSet]'] = dict(
+    target='EFLRSet._make_body_bytes', self_class='ZoneSet', props=['C04', 'C09'],
+    self_fields=SET_FIELDS, params={}, returns='bytes',
+    requires=["self._set_type_struct == enc_ident('ZONE')"],
+    ref_methods={'make_item_body_bytes': 'EFLRItem.make_item_body_bytes'},
+    may_raise=['ValueError', 'UnicodeEncodeError', 'StubException'],
+    loops=[dict(inv=['bts == at_entry(bts) + concat_item_bodies(__done)'])],
+    ensures=[('empty-set-has-no-record', "implies(len(self._eflr_item_list) == 0, result == b'')"),
+             ('set-template-objects', "implies(len(self._eflr_item_list) > 0, result == ((bytes([248]) + enc_ident('ZONE') + enc_ident(self.set_name)) "
+              f"if ({_NAMED}) else (bytes([240]) + enc_ident('ZONE'))) + template_bytes(self) + concat_item_bodies(self._eflr_item_list))")])
+
+# template of a set = one label-only component per schema attribute of its first object, in schema order
+for _n in (1, 2):
+    CONTRACTS[f'EFLRSet._make_template_bytes[ZoneSet,{_n}-items]'] = dict(
+        target='EFLRSet._make_template_bytes', self_class='ZoneSet', props=['C04'],
+        self_fields={'_eflr_item_list': 'list[obj:ZoneItemT]*%d' % _n}, params={}, returns='bytes',
+        ensures=[('template-from-first-object-in-schema-order',
+                  'result == ' + ' + '.join(f'template_component(self._eflr_item_list[0].{a})' for a in SCHEMAS['ZoneItem']))])
+CONTRACTS['EFLRSet._make_template_bytes[ZoneSet,0-items]'] = dict(
+    target='EFLRSet._make_template_bytes', self_class='ZoneSet', props=['C04'],
+    self_fields={'_eflr_item_list': 'list[int]*0'}, params={}, returns='bytes', ensures=[('empty', "result == b''")])
+MODELS = {'ZoneItemT': {'cls': 'ZoneItem', 'fields': dict({'name': 'str'}, **{a: {'cls': 'Attribute', 'fields': {'_label': 'str'}} for a in SCHEMAS['ZoneItem']})}}
+
+# ---------------------------------------------------------------------------------------------- file header (hand-written components)
+CONTRACTS['FileHeaderSet._make_template_bytes'] = dict(
+    props=['C04', 'C09'], self_fields={}, params={}, returns='bytes',
+    ensures=[('two-label-and-code-components', "result == bytes([52]) + enc_ident('SEQUENCE-NUMBER') + bytes([20]) + bytes([52]) + enc_ident('ID') + bytes([20])")])
+_SEQ10 = 'len(str(self.sequence_number)) > 10'
+CONTRACTS['FileHeaderItem._make_attrs_bytes'] = dict(
+    props=['C04', 'C09', 'C12'], self_fields={'sequence_number': 'int', 'header_id': 'str'}, params={}, returns='bytes',
+    raises={'ValueError': f'{_SEQ10} or len(self.header_id) > 65',
+            'UnicodeEncodeError': f'not ({_SEQ10}) and len(self.header_id) <= 65 and not all_ascii(self.header_id)'},
+    ensures=[('len', 'len(result) == 79'),
+             ('sequence-number-right-justified-10-id-left-justified-65',
+              'result == bytes([33, 10]) + ascii_bytes(rjust(str(self.sequence_number), 10)) + bytes([33, 65]) + ascii_bytes(ljust(self.header_id, 65))')])
+
+
+# ---------------------------------------------------------------------------------------------- schema obligations (finite, decided by evaluation)
+def _labels(cls):
+    """(python name, label) per schema attribute; the label is computed by evaluating the REAL label expression of Attribute.__init__"""
+    fn, owner, _ = _src.find_method(cls, '__init__')
+    afn, _, _ = _src.find_method('Attribute', '__init__')
+    expr = None
+    for st in ast.walk(afn):
+        if isinstance(st, ast.Assign) and isinstance(st.targets[0], ast.Attribute) and st.targets[0].attr == '_label':
+            expr = st.value
+    out = []
+    for st in fn.body:
+        if isinstance(st, ast.Assign) and len(st.targets) == 1 and isinstance(st.targets[0], ast.Attribute) and isinstance(st.value, ast.Call):
+            cname = _src.resolve_class_name(ast.unparse(st.value.func), _src.classes[owner].module)
+            if not (cname and _src.is_subclass(cname, 'Attribute')):
+                continue
+            arg = st.value.args[0] if st.value.args else next((k.value for k in st.value.keywords if k.arg == 'label'), None)
+            if cname in ('ReprCodeAttribute',):
+                arg = ast.Constant('representation_code')
+            if not isinstance(arg, ast.Constant):
+                out.append((st.targets[0].attr, None))
+                continue
+            out.append((st.targets[0].attr, eval(compile(ast.Expression(expr), '<label>', 'eval'), {'label': arg.value})))
+    return out
+
+
+def extra_c04(tier, seed, src):
+    res = {'violations': [], 'errors': [], 'undecided': [], 'schema_classes': 0, 'schema_labels': 0}
+    import json, os
+    for c in ITEM_CLASSES:
+        if c == 'FileHeaderItem':
+            continue
+        labs = _labels(c)
+        res['schema_classes'] += 1
+        res['schema_labels'] += len(labs)
+        bad = [n for n, l in labs if not l]
+        dup = sorted({l for n, l in labs if l and [x for _, x in labs].count(l) > 1})
+        if bad or dup:
+            path = os.path.join(os.path.dirname(os.path.dirname(__file__)), 'replays', f'C04_schema_{c}.json')
+            os.makedirs(os.path.dirname(path), exist_ok=True)
+            json.dump({'property': 'C04', 'obligation': f'schema[{c}]:labels-unique-nonempty', 'class': c, 'labels': labs, 'empty_or_unevaluable': bad,
+                       'duplicates': dup, 'how': 'labels are computed by evaluating the label expression of Attribute.__init__ on the literal passed in the item class'}, open(path, 'w'), indent=1)
+            res['violations'].append({'key': f'schema[{c}]:labels-unique-nonempty', 'replay': path, 'confirmed': True})
+    return res
+
+
+EXTRAS = {'C04': extra_c04}
